@@ -418,6 +418,15 @@ def _directed(ctx):
     def c5(s: S, a: int) -> D: ...
     expect("explicit-link-beats-same-named-parameter", c5, (s, 100), D(3, 2, 3, DI(10, 20)))
 
+    @impl_converter(recipe=[link("c", "x")])
+    def c6(s: S, b: int, c: int) -> D: ...
+    # "Additional parameters are checked (from right to left) before the fields. So, your custom linking looks among the additional parameters too"
+    expect("explicit-link-takes-the-parameter-before-the-same-named-field", c6, (s, 200, 300), D(1, 200, 300, DI(10, 20)))
+
+    @impl_converter(recipe=[link("c", "x")])
+    def c6b(s: S, c: int, b: int, *, cc: int = 0) -> D: ...
+    expect("explicit-link-parameter-order-irrelevant-for-distinct-names", c6b, (s, 300, 200), D(1, 200, 300, DI(10, 20)))
+
     def fn(s: S, k: int, *, b: int) -> int:
         return s.a * 1000 + k * 10 + b
 
